@@ -72,6 +72,12 @@ func dependsOn(v, target ssa.Value, depth int, seen map[ssa.Value]bool) bool {
 // mustOnBackPaths: on every path from the header around the loop back to the header, an instruction
 // satisfying isP executes.
 func (l *loopInfo) mustOnBackPaths(isP func(ssa.Instruction) bool) bool {
+	return l.mustOnBackPathsE(isP, nil)
+}
+
+// mustOnBackPathsE: as mustOnBackPaths; an edge for which isEdge holds counts as having passed P (the branch taken when
+// a helper reports that it consumed input)
+func (l *loopInfo) mustOnBackPathsE(isP func(ssa.Instruction) bool, isEdge func(from, to *ssa.BasicBlock) bool) bool {
 	// forward must-analysis restricted to the loop, starting at the header with "not seen"
 	out := map[*ssa.BasicBlock]bool{}
 	for b := range l.body {
@@ -88,7 +94,7 @@ func (l *loopInfo) mustOnBackPaths(isP func(ssa.Instruction) bool) bool {
 				for _, p := range b.Preds {
 					if l.body[p] {
 						any = true
-						in = in && out[p]
+						in = in && (out[p] || (isEdge != nil && isEdge(p, b)))
 					}
 				}
 				if !any {
@@ -108,7 +114,7 @@ func (l *loopInfo) mustOnBackPaths(isP func(ssa.Instruction) bool) bool {
 		}
 	}
 	for _, p := range l.header.Preds {
-		if l.body[p] && !out[p] {
+		if l.body[p] && !out[p] && !(isEdge != nil && isEdge(p, l.header)) {
 			return false
 		}
 	}
@@ -387,7 +393,72 @@ func (e *loopEngine) judge(l *loopInfo) loopVerdict {
 		}
 		return loopVerdict{why: "with the look-ahead token kind in {" + strings.Join(names, " ") + "} some feasible path goes around the loop without consuming a token: the parser spins on that token"}
 	}
-	if l.mustOnBackPaths(func(i ssa.Instruction) bool { return isConsume(i) || isReslice(i) }) {
+	// a bool-returning helper that answers true only after it has consumed input (skipBlank): its true branch is progress
+	advWhenTrue := func(g *ssa.Function) bool {
+		if g == nil || g.Blocks == nil || g.Signature.Results().Len() != 1 || !isBoolType(g.Signature.Results().At(0).Type()) {
+			return false
+		}
+		out := map[*ssa.BasicBlock]bool{}
+		for _, b := range g.Blocks {
+			out[b] = true
+		}
+		for changed := true; changed; {
+			changed = false
+			for _, b := range g.Blocks {
+				in := len(b.Preds) > 0
+				for _, p := range b.Preds {
+					in = in && out[p]
+				}
+				o := in
+				for _, ins := range b.Instrs {
+					if isConsume(ins) || isReslice(ins) {
+						o = true
+					}
+				}
+				if o != out[b] {
+					out[b] = o
+					changed = true
+				}
+			}
+		}
+		n := 0
+		for _, b := range g.Blocks {
+			ret, ok := b.Instrs[len(b.Instrs)-1].(*ssa.Return)
+			if !ok {
+				continue
+			}
+			n++
+			rv := ret.Results[0]
+			if k, ok := rv.(*ssa.Const); ok && k.Value != nil && k.Value.Kind() == constant.Bool && !constant.BoolVal(k.Value) {
+				continue
+			}
+			if ph, ok := rv.(*ssa.Phi); ok && ph.Block() == b {
+				for i, e := range ph.Edges {
+					if k, ok := e.(*ssa.Const); ok && k.Value != nil && k.Value.Kind() == constant.Bool && !constant.BoolVal(k.Value) {
+						continue
+					}
+					if !out[b.Preds[i]] {
+						return false
+					}
+				}
+				continue
+			}
+			if !out[b] {
+				return false
+			}
+		}
+		return n > 0
+	}
+	trueEdgeOfAdvancer := func(from, to *ssa.BasicBlock) bool {
+		iff, ok := from.Instrs[len(from.Instrs)-1].(*ssa.If)
+		if !ok || len(from.Succs) != 2 || from.Succs[0] == from.Succs[1] {
+			return false
+		}
+		e := stripNot(condEdge{iff.Cond, from.Succs[0] == to})
+		call, ok := e.cond.(*ssa.Call)
+		return ok && e.truth && call.Block() == from && advWhenTrue(call.Call.StaticCallee())
+	}
+	if l.mustOnBackPathsE(func(i ssa.Instruction) bool { return isConsume(i) || isReslice(i) }, trueEdgeOfAdvancer) {
 		return loopVerdict{ok: true, how: "consumes input on every path around the loop"}
 	}
 	return loopVerdict{why: "no path-independent progress: not a counted loop, no input consumption on every path around it, no link walk, no blocking receive"}
